@@ -37,8 +37,8 @@ type Result struct {
 	Counters   map[string]int64
 }
 
-func (r *Result) Add(d ...Disc)      { r.Discs = append(r.Discs, d...) }
-func (r *Result) Class(c ...string)  { r.Classes = append(r.Classes, c...) }
+func (r *Result) Add(d ...Disc)     { r.Discs = append(r.Discs, d...) }
+func (r *Result) Class(c ...string) { r.Classes = append(r.Classes, c...) }
 func (r *Result) Count(k string, n int64) {
 	if r.Counters == nil {
 		r.Counters = map[string]int64{}
@@ -66,8 +66,8 @@ type Spec[C any] struct {
 type Finding struct {
 	ID       string          `json:"id"`
 	Property string          `json:"property"`
-	Status   string          `json:"status"` // "open" or "fixed"
-	Kind     string          `json:"kind"`   // discrepancy kind it explains
+	Status   string          `json:"status"`          // "open" or "fixed"
+	Kind     string          `json:"kind"`            // discrepancy kind it explains
 	Kinds    []string        `json:"kinds,omitempty"` // further kinds with the same root cause
 	Feature  string          `json:"feature"`
 	What     string          `json:"what"`
